@@ -157,8 +157,8 @@ def cases(ctx: Ctx):
         yield g.sealed_case('wrong-aes-key', msg[1], aes_key=OTHER_AES_KEY, via_loop=True)
     # ---- known / unknown urn x right / wrong device key
     js_ok = payload_json(1, 0)
-    for urn in ('b', 'c', 'a', 'zz', 'B', 'b\t', ''):
-        for key in ('kb', 'kc', 'ka', 'kx', 'KB', 'kb\x00', ''):
+    for urn in ('b', 'c', 'a', 'zz', 'B', 'b\t', '', 'bk', 'bkx'):
+        for key in ('kb', 'kc', 'ka', 'kx', 'KB', 'kb\x00', '', 'x', 'k', 'b', 'kbkb', 'kbx'):
             for ty, fl in ((0, 1), (1, 1), (2, 0)):
                 pt = '%s %s %d %d %s' % (urn, key, ty, fl, js_ok if ty != 1 else '{}')
                 yield g.sealed_case('urn-key-matrix', pt, addr=rng.choice(['6.6.6.6', '10.0.0.2']), via_loop=(ty == 2))
